@@ -425,7 +425,9 @@ func (s *State) diffIOSACLs(al, bl []*cmd, diff []edit.Range) {
 	// Ignore move if both positions belong to the same block.
 	moveACL := func(a *cmdAndPos, b *cmd, before, i int, moveOK bool) {
 		defer func() { a.cmd = nil }()
-		if moveOK {
+		// A line with changed 'log' attribute must be replaced even
+		// if it stays inside its block.
+		if moveOK && getPrintableCmd(a.cmd, s.a) == s.printNetspocCmd(b) {
 			oldID := idx2Block[a.pos]
 			if before > 0 && idx2Block[before-1] == oldID {
 				return
